@@ -57,10 +57,15 @@ def analyse(base, chk, fname, variant="distinct"):
             continue
         # ---- writes
         inside = 0
+        held = 0
         stack = []
-        bad_global, bad_arg = [], []
+        bad_global, bad_arg, memo_state = [], [], []
         for ev in p.log:
-            if ev[0] == "once_begin":
+            if ev[0] == "lock":
+                held += 1
+            elif ev[0] == "unlock":
+                held = max(0, held - 1)
+            elif ev[0] == "once_begin":
                 # only the initialiser of a package-level sync.Once may build package-level data (lazily built tables)
                 stack.append(1 if ex.meta[ev[1]].kind == "global" else 0)
                 inside = sum(stack)
@@ -72,7 +77,7 @@ def analyse(base, chk, fname, variant="distinct"):
                 m = ex.meta.get(oid)
                 if m is not None and m.kind == "global":
                     if not inside > 0:
-                        bad_global.append((m.name, ev[2]))
+                        (memo_state if held > 0 else bad_global).append((m.name, ev[2]))
                 elif oid in r.pre_objs:
                     if recv is not None and oid == recv.obj:
                         continue
@@ -84,6 +89,10 @@ def analyse(base, chk, fname, variant="distinct"):
                         # an object that existed before the call and is not an argument: package state reached through a global pointer
                         bad_global.append((m.name if m else oid, ev[2]))
         chk.fact("%s%s: writes no package-level state (except the Once-guarded tables, inside their initialiser)" % (label, tag), not bad_global, [fname], "effects", detail=str(bad_global[:3]))
+        if memo_state:
+            # package-level data rewritten under a mutex (a memo cache): race-free, but whether results still depend only on
+            # the arguments depends on the cache's key discipline, which the effects do not show: undecided, history battery
+            chk.soft("%s%s: keeps no mutable package-level state (found: written under a mutex)" % (label, tag), False, [fname], "effects", detail=str(memo_state[:3]))
         chk.fact("%s%s: writes no non-receiver argument" % (label, tag), not bad_arg, [fname], "effects", detail=str(bad_arg[:3]))
         # ---- no result may point into package-level state (a caller mutating it would change later results)
         resobjs = set()
@@ -211,7 +220,7 @@ def history_battery(seed):
     run in ONE process in an order that interleaves routines and term counts (a larger multi-scalar call before a smaller
     one, table users before and after each other); every result is compared with the stateless big-integer oracle"""
     from sym import ptreplay
-    return ptreplay.battery_scalarmult(seed, maxn=3) or ptreplay.battery_scalarmult(seed + 1, maxn=4)
+    return ptreplay.battery_scalarmult(seed, maxn=3) or ptreplay.battery_history_variants(seed) or ptreplay.battery_scalarmult(seed + 1, maxn=4)
 
 
 def safety_net(chk):
